@@ -99,6 +99,19 @@ impl Family for C09 {
                 kind: *rng.pick(&ErrK::HARD),
             },
         };
+        let mut elems = elems;
+        if rkind == RdKind::B8 && rbackend.zero_extended() {
+            // see C03: the known finding (u8 reader + tables) is exercised on strict backends only
+            for el in elems.iter_mut() {
+                if let Elem::Code { code, rtab, .. } = el {
+                    let mut t = *rtab % code.n_rtabs();
+                    while !code.rtables(t).is_empty() {
+                        t = (t + 1) % code.n_rtabs();
+                    }
+                    *rtab = t;
+                }
+            }
+        }
         let mut tail = Vec::new();
         for _ in 0..rng.usize_range(0, 6) {
             tail.push(match rng.below(3) {
@@ -352,6 +365,14 @@ impl Family for C09 {
         out
     }
 
+    fn scenario_tags(s: &S09) -> Vec<String> {
+        let tab = s.elems.iter().any(|el| matches!(el, Elem::Code { code, rtab, .. } if !code.rtables(*rtab).is_empty()));
+        vec![
+            format!("reader={:?}", s.rkind),
+            format!("table_read_seen={}", if tab { "yes" } else { "no" }),
+        ]
+    }
+
     fn rule() -> &'static str {
         "one case = (endianness, reader {buffered u8..u64, unbuffered}, backend {zero-extended; strict: strict memory reader, vector/slice writer read back, WordAdapter over a truncated SimDisk, same through std BufReader, stub failing with EOF, stub failing with a hard error kind}, valid stream of 1-10 items (all codes, table options, raw fields) after an offset, cut after keep_words reader words with keep_words biased to the estimated stream length -2..+1 words). distinct_nontrivial = distinct (endianness, reader, strict?, code class, read variant, item inside/outside the data, signed distance in bits between the item's end and the cut (clamped to +-130)) signatures"
     }
@@ -380,8 +401,8 @@ impl Family for C09 {
 
     fn runs(t: Tier) -> u64 {
         match t {
-            Tier::Quick => 300_000,
-            Tier::Thorough => 30_000_000,
+            Tier::Quick => 2_000_000,
+            Tier::Thorough => 150_000_000,
         }
     }
 
